@@ -9,6 +9,8 @@ def run(chk, replay=None):
     steps = [
         dict(instr="release", part="native-exhaustive", count=0, shards=16, args=dict(what="exhaustive", depth=5 if q else 6)),
         dict(instr="release", part="native-random-threaded", count=3000 if q else 60000, shards=8, shard_arg=False, args=dict(what="random", maxlen=40)),
+        dict(instr="release", part="native-upgrade-waker", count=1, args=dict(upgrade=1)),
+        dict(instr="miri", part="miri-upgrade-waker", count=1, args=dict(upgrade=1)),
         dict(instr="release", part="native-race-release", count=1, shards=8, shard_arg=False, args=dict(race=4000 if q else 60000)),
         dict(instr="miri", part="miri-race-release", count=1, shards=8 if q else 64, shard_arg=False, miri_seed_base=chk.seed * 1000 + 500, args=dict(race=2)),
         dict(instr="debug", part="native-debug", count=500 if q else 5000, args=dict(depth=3, maxlen=30)),
@@ -24,10 +26,12 @@ def run(chk, replay=None):
     chk.coverage["rule"] = ("scripts over {clone i->j, wake i, wake_by_ref i, drop i, send-to-thread i, end-of-poll} on 3 slots + the borrowed cx.waker(), interpreted inside a "
                             "Future/Stream/Sink polled through an opaque CGlue object, remainder run after the poll on retained wakers; every script up to the exhaustive depth "
                             "(14-symbol alphabet), seeded random scripts with helper threads; half of the scripts end with the caller dropping its own handles first. "
+                            "a caller's waker whose clone() differs from itself (borrowed waker upgrading to an owned one): retained handles must wake and release the clone; "
                             "a family of 2-3 handles sharing one foreign-side waker released at the same instant from as many threads (drop / wake by value in every pattern), thousands of rounds "
                             "natively and under Miri's scheduler with one seed per process. distinct = scripts in which at least one operation executed")
     chk.floor("scripts with executed ops", chk.parts.get("native-exhaustive", {}).get("scripts_nontrivial", 0), 10000)
     chk.floor("miri scripts", chk.parts.get("miri-exhaustive", {}).get("scripts", 0), 500)
+    chk.floor("upgrade-on-clone waker cases", chk.parts.get("native-upgrade-waker", {}).get("upgrade_waker_cases", 0), 4)
     chk.floor("concurrent release rounds", chk.parts.get("native-race-release", {}).get("race_rounds", 0), 5000)
     chk.floor("miri threaded scripts", chk.parts.get("miri-threaded", {}).get("scripts", 0), 30)
     chk.assumptions += ["the caller's waker is an Arc<impl Wake>; its strong count is read through a Weak",
